@@ -42,7 +42,7 @@ func c13WellFormed(rows []*models.Header) bool {
 	return ok
 }
 
-var c13Parents = []string{"", "/d", "/f", "/missing", "/d/sub", "/d/s"}
+var c13Parents = []string{"", "/d", "/f", "/missing", "/d/sub", "/d/s", "/l"}
 
 // Harness_C13_tree_stays_well_formed: from a well-formed tree, every creating or moving call leaves a
 // well-formed tree (Inv is inductive), whatever it returns.
@@ -60,6 +60,7 @@ func Harness_C13_tree_stays_well_formed() {
 	v.Env.AddEntry("/f", tar.TypeReg, 0, false, "")
 	v.Env.AddEntry("/d/g", tar.TypeReg, 0, false, "")
 	v.Env.AddEntry("/d/s", tar.TypeDir, 0, false, "")
+	v.Env.AddEntry("/d", tar.TypeSymlink, 0, false, "/l") // a symbolic link at /l to the directory /d
 	switch vm.Choice("tombstones", 3) {
 	case 1:
 		v.Env.AddEntry("/t", tar.TypeDir, 0, true, "")
